@@ -232,6 +232,11 @@ class VFSZip(VFS_Real):
                     newsymlinkinodes.append(item)
             symlinkinodes = newsymlinkinodes
 
+        # Look-ups that failed while the links were still unresolved must not
+        # be remembered as invalid now that resolution is complete.
+        self.invalid_paths = set()
+        self.entrycache = {}
+
     def _islinkinfo(self, info: zipfile.ZipInfo) -> bool:
         return stat.S_ISLNK(info.external_attr >> 16)
 
